@@ -2,7 +2,9 @@
 //! Programs are recipes (leaf types + steps); the REAL builder decides well-typedness.
 use crate::common::catch;
 use crate::vals;
-use ciphercore_base::data_types::{array_type, scalar_type, ScalarType, Type, BIT, INT32, UINT64, UINT8};
+use ciphercore_base::data_types::{
+    array_type, named_tuple_type, scalar_type, tuple_type, vector_type, ScalarType, Type, BIT, INT32, UINT64, UINT8,
+};
 use ciphercore_base::data_values::Value;
 use ciphercore_base::graphs::{create_context, Context, Graph, Node, SliceElement};
 
@@ -35,6 +37,12 @@ pub enum Step {
     V2A(usize),
     A2B(usize),
     B2A(usize, ScalarType),
+    // n-ary structural operations (3-4 operands)
+    ConcatN(Vec<usize>),
+    StackN(Vec<usize>),
+    TupleN(Vec<usize>),
+    VectorN(Vec<usize>),
+    NamedTupleN(Vec<usize>),
 }
 
 impl Step {
@@ -45,6 +53,7 @@ impl Step {
             | Stack(a, b) | Concat(a, b, _) | Tuple(a, b) | NamedTuple(a, b) | Vector(a, b) | Zip(a, b) => vec![*a, *b],
             Sum(a, _) | CumSum(a, _) | Get(a, _) | Slice(a, _) | Reshape(a, _) | Permute(a, _) | TupleGet(a, _)
             | NamedGet(a, _) | VectorGet(a, _) | Repeat(a, _) | A2V(a) | V2A(a) | A2B(a) | B2A(a, _) => vec![*a],
+            ConcatN(v) | StackN(v) | TupleN(v) | VectorN(v) | NamedTupleN(v) => v.clone(),
         }
     }
     /// does the protocol for this step produce a 3-out-of-3 sharing / use PRF masks when operands are private?
@@ -138,6 +147,16 @@ pub fn apply(g: &Graph, nodes: &[Node], s: &Step) -> ciphercore_base::errors::Re
         V2A(a) => g.vector_to_array(n(a)),
         A2B(a) => g.a2b(n(a)),
         B2A(a, st) => g.b2a(n(a), *st),
+        ConcatN(v) => g.concatenate(v.iter().map(n).collect(), 0),
+        StackN(v) => g.stack(v.iter().map(n).collect(), vec![v.len() as u64]),
+        TupleN(v) => g.create_tuple(v.iter().map(n).collect()),
+        VectorN(v) => {
+            let t = n(&v[0]).get_type()?;
+            g.create_vector(t, v.iter().map(n).collect())
+        }
+        NamedTupleN(v) => g.create_named_tuple(
+            v.iter().enumerate().map(|(k, i)| (format!("f{}", k), n(i))).collect(),
+        ),
     }
 }
 
@@ -188,6 +207,20 @@ pub fn candidates(types: &[Type], must: Option<usize>) -> Vec<Step> {
     let n = types.len();
     let mut out: Vec<Step> = vec![];
     let uses = |s: &Step| must.map(|m| s.operands().contains(&m)).unwrap_or(true);
+    // n-ary structural operations over the first k / last k nodes (both orders)
+    for k in [3usize, 4] {
+        if n >= k {
+            let mut lists: Vec<Vec<usize>> = vec![(0..k).collect(), (n - k..n).collect(), (n - k..n).rev().collect()];
+            lists.dedup();
+            for l in lists {
+                for s in [ConcatN(l.clone()), StackN(l.clone()), TupleN(l.clone()), VectorN(l.clone()), NamedTupleN(l.clone())] {
+                    if uses(&s) && !out.contains(&s) {
+                        out.push(s);
+                    }
+                }
+            }
+        }
+    }
     for a in 0..n {
         let ta = &types[a];
         // unary
@@ -318,6 +351,13 @@ pub fn families(thorough: bool) -> Vec<Vec<Leaf>> {
         vec![Leaf::Input(i32_2.clone()), Leaf::Const(i32_2.clone(), vec![3, (-5i128) as u128])],
         vec![Leaf::Input(scalar_type(UINT64)), Leaf::Input(u64_2.clone())],
         vec![Leaf::Input(array_type(vec![2, 8], BIT)), Leaf::Input(array_type(vec![2, 8], BIT))],
+        // structured inputs: the input-sharing code for tuples / vectors / named tuples
+        vec![Leaf::Input(tuple_type(vec![i32_2.clone(), bit2.clone()])), Leaf::Input(i32_2.clone())],
+        vec![Leaf::Input(vector_type(2, i32_2.clone())), Leaf::Input(i32_2.clone())],
+        vec![Leaf::Input(named_tuple_type(vec![("x".to_string(), i32_2.clone()), ("y".to_string(), u64_2.clone())]))],
+        // four leaves: n-ary structural operations with private and public operands in every position
+        vec![Leaf::Input(i32_2.clone()), Leaf::Input(i32_2.clone()), Leaf::Input(i32_2.clone()), Leaf::Const(i32_2.clone(), vec![41, 42])],
+        vec![Leaf::Input(i32_2.clone()), Leaf::Input(i32_2.clone()), Leaf::Input(i32_2.clone()), Leaf::Input(i32_2.clone())],
     ];
     if thorough {
         f.push(vec![Leaf::Input(bit22.clone()), Leaf::Input(bit22)]);
